@@ -65,6 +65,118 @@ let k1_line (line : string) : string =
         | _ -> "panic"))
   | _ -> failwith ("k1: bad line: " ^ line)
 
+
+(* ---- K3: whole cases ---- *)
+let fields line =
+  List.filter_map (fun tok ->
+    match String.index_opt tok '=' with
+    | Some i -> Some (String.sub tok 0 i, String.sub tok (i+1) (String.length tok - i - 1))
+    | None -> None) (String.split_on_char ' ' (String.trim line))
+let get fs k = try List.assoc k fs with Not_found -> failwith ("missing field " ^ k)
+let zlist s = List.map z_of_string (split_on ',' s)
+let natlist s = List.map (fun x -> nat_of_int (int_of_string x)) (split_on ',' s)
+
+let filf_of = function
+  | ["F"; m; r] -> KeepMod (z_of_string m, z_of_string r)
+  | ["Fl"; t] -> KeepLt (z_of_string t)
+  | ["Fa"] -> KeepAll
+  | l -> failwith ("filf: " ^ String.concat ":" l)
+
+let dop_of (s : string) : dop =
+  match String.split_on_char ':' s with
+  | ["M"; a; b] -> DMap (Affine (z_of_string a, z_of_string b))
+  | ["Mm"; m] -> DMap (MapMod (z_of_string m))
+  | ("F" | "Fl" | "Fa") :: _ as l -> DFilter (filf_of l)
+  | ["X"; k; d] -> DFlatMap (Rep (nat_of_int (int_of_string k), z_of_string d))
+  | ["Xm"; m] -> DFlatMap (RepMod (z_of_string m))
+  | ["O"; m; r; a; b] -> DFilterMap (SomeMod (z_of_string m, z_of_string r, z_of_string a, z_of_string b))
+  | ["N"; n] -> DNumThreads (n_of_string n)
+  | ["C"; n] -> DChunkSize (n_of_string n)
+  | ["Cm"; n] -> DChunkMin (n_of_string n)
+  | _ -> failwith ("op: " ^ s)
+
+let redop_of = function
+  | "add" -> RAdd | "xor" -> RXor | "min" -> RMinOp | "max" -> RMaxOp | "sub" -> RSub | "poly" -> RPoly
+  | s -> failwith ("redop " ^ s)
+
+let term_of (s : string) : terminal =
+  match String.split_on_char ':' s with
+  | ["cv"] -> TCollectVec | ["cs"] -> TCollectSplit | ["cx"] -> TCollectX
+  | ["ci"; t; old] ->
+    let t = (match t with "v" -> TVec | "s" -> TSplit | _ -> TFixed) in
+    TCollectInto (t, List.map z_of_string (split_on '/' old))
+  | ["cnt"] -> TCount | ["fe"] -> TForEach
+  | ["red"; o] -> TReduceT (redop_of o)
+  | "find" :: q -> TFind (filf_of q) | "findix" :: q -> TFindIx (filf_of q)
+  | ["first"] -> TFirst | ["firstix"] -> TFirstIx
+  | "any" :: q -> TAny (filf_of q) | "all" :: q -> TAll (filf_of q)
+  | _ -> failwith ("term: " ^ s)
+
+let str_list f l = if l = [] then "-" else String.concat "," (List.map f l)
+let zcmp a b = match z_to_int a, z_to_int b with
+  | Neg _, Pos _ -> -1 | Pos _, Neg _ -> 1
+  | _ -> (* compare by value through string length then lexicographic *)
+    let sa = string_of_z a and sb = string_of_z b in
+    let neg = String.length sa > 0 && sa.[0] = '-' in
+    let c = compare (String.length sa, sa) (String.length sb, sb) in
+    if neg then -c else c
+let call_str (i, a) = Printf.sprintf "%d:%s" (int_of_nat i) (string_of_z a)
+let call_cmp (i, a) (j, b) = let c = compare (int_of_nat i) (int_of_nat j) in if c <> 0 then c else zcmp a b
+
+let res_str = function
+  | RList l -> "L:" ^ str_list string_of_z l
+  | RBag l -> "B:" ^ str_list string_of_z (List.sort zcmp l)
+  | RCount n -> "N:" ^ string_of_int (int_of_nat n)
+  | ROpt None -> "O:-" | ROpt (Some v) -> "O:" ^ string_of_z v
+  | ROptIx None -> "I:-" | ROptIx (Some (i, v)) -> Printf.sprintf "I:%d:%s" (int_of_nat i) (string_of_z v)
+  | RBool true -> "b:1" | RBool false -> "b:0"
+  | RUnit -> "U" | RPanic -> "P"
+
+let params_str p =
+  (match p.p_threads with NTAuto -> "A" | NTMax n -> "M" ^ string_of_n n) ^ "/" ^
+  (match p.p_chunk with CSAuto -> "A" | CSExact n -> "E" ^ string_of_n n | CSMin n -> "m" ^ string_of_n n)
+
+let kind_str = function
+  | KEmpty -> "Empty" | KMap -> "Map" | KFilter -> "Filter" | KMapFilter -> "MapFilter"
+  | KFilterMap -> "FilterMap" | KFilterMapFilter -> "FilterMapFilter"
+  | KFlatMap -> "FlatMap" | KFlatMapFilter -> "FlatMapFilter"
+
+let tk_of = function DMap _ -> Some TMap | DFilter _ -> Some TFilter | DFlatMap _ -> Some TFlatMap
+  | DFilterMap _ -> Some TFilterMap | _ -> None
+let tk_str = function TMap -> "map" | TFilter -> "filter" | TFlatMap -> "flat_map" | TFilterMap -> "filter_map"
+(* the eager sites a chain of operations passes, by the model's transition table *)
+let sites_of (ops : dop list) (foreach : bool) : string list =
+  let rec go k acc = function
+    | [] -> (k, List.rev acc)
+    | o :: r -> (match tk_of o with
+        | None -> go k acc r
+        | Some t ->
+          let acc = if eager k t then (kind_str k ^ "." ^ tk_str t) :: acc else acc in
+          go (next_kind k t) acc r) in
+  let (k, acc) = go KEmpty [] ops in
+  if foreach && eager k TMap then acc @ [kind_str k ^ ".map(for_each)"] else acc
+
+let k3_line (line : string) : string =
+  let fs = fields line in
+  let c = { c_known = (get fs "known" = "1");
+            c_input = zlist (get fs "in");
+            c_ops = List.map dop_of (split_on ';' (get fs "ops"));
+            c_term = term_of (get fs "term");
+            c_avail = n_of_string (get fs "avail");
+            c_sched = natlist (get fs "sched");
+            c_fuel = nat_of_int (int_of_string (get fs "fuel")) } in
+  let o = exec c in
+  let all_calls = List.sort call_cmp (List.concat o.o_rlog) in
+  let seqlog = if o.o_sequential then str_list call_str (List.concat o.o_rlog) else "-" in
+  let sites = sites_of c.c_ops (match c.c_term with TForEach -> true | _ -> false) in
+  Printf.sprintf "id=%s sites=%s seqlog=%s res=%s params=%s kind=%s seq=%d consumed=%d clog=%s calls=%s spawned=%d chunks=%s pulls=%s"
+    (get fs "id") (if sites = [] then "-" else String.concat "," sites) seqlog (res_str o.o_result) (params_str o.o_params) (kind_str o.o_kind)
+    (if o.o_sequential then 1 else 0) (int_of_nat o.o_consumed)
+    (str_list call_str o.o_clog) (str_list call_str all_calls)
+    (int_of_nat o.o_spawned) (str_list (fun n -> string_of_int (int_of_nat n)) o.o_chunks)
+    (if o.o_pulls = [] then "-" else String.concat "|" (List.map (fun pl ->
+        if pl = [] then "-" else String.concat "," (List.map (fun (b, k) -> Printf.sprintf "%d+%d" (int_of_nat b) (int_of_nat k)) pl)) o.o_pulls))
+
 let run_lines f =
   try
     while true do
@@ -76,4 +188,5 @@ let run_lines f =
 let () =
   match Sys.argv with
   | [| _; "k1" |] -> run_lines k1_line
+  | [| _; "k3" |] -> run_lines k3_line
   | _ -> prerr_endline "usage: driver (k1|kp)"; exit 2
